@@ -34,7 +34,16 @@ var c17SMTPVariants = []c17Dec{
 	{"return \"x\"", "none", 0, ""},
 	{"return {}", "none", 0, ""},
 	{"error(\"e\")", "none", 0, ""},
+	// several verdict values alive at once: each keeps the action, code and text it was built with
+	{"local a = smtp.deny(451, \"t\"); local b = smtp.deny(552, \"other\"); return a", "deny", 451, "t"},
+	{"local a = smtp.allow(); local b = smtp.deny(); return a", "allow", 0, ""},
+	// verdicts prepared once, when the script is loaded
+	{"return V451", "deny", 451, "t"},
 }
+
+// c17Preamble is put in front of every script: verdicts built at load time.
+const c17Preamble = "V451 = smtp.deny(451, \"t\")\nV552 = smtp.deny(552, \"other\")\n"
+
 
 // what a before.message_stored variant stands for.
 type c17MS struct {
@@ -87,6 +96,9 @@ func (c c17Case) script() string {
 		if body != "" {
 			fmt.Fprintf(&b, "function inbucket.%s(%s)\n  %s\nend\n", name, arg, body)
 		}
+	}
+	if strings.Contains(c17SMTPVariants[c.MF].Lua+c17SMTPVariants[c.RT].Lua, "V451") {
+		b.WriteString(c17Preamble)
 	}
 	h("before.mail_from_accepted", "session", c17SMTPVariants[c.MF].Lua)
 	h("before.rcpt_to_accepted", "session", c17SMTPVariants[c.RT].Lua)
